@@ -1,6 +1,6 @@
 (** [sx -> sx] entry points of the Faults layer for the correspondence runner. *)
 From Coq Require Import List NArith ZArith Bool Arith.
-From LS Require Import Base.Sx Faults.Resumable Faults.Upload Faults.Restore.
+From LS Require Import Base.Sx Faults.Resumable Faults.Upload Faults.Restore Faults.Compact.
 Import ListNotations.
 Local Open Scope nat_scope.
 
@@ -137,11 +137,12 @@ Definition upload_inv_ok (x : sx) : sx := sxB (inv_ok_events 1 [] [] (asL (nthx 
 
 (** ---- restore output discipline ------------------------------------------- *)
 
-(** input [pre_exists; class; out_exists; tmp_exists; same; unchanged; side_files]
+(** input [pre_exists; class; out_exists; tmp_exists; same; unchanged; side_files; cancelled]
     as observed after the real Restore returned (class 0 nil, 1 error, 7 panic);
-    [same]: the output equals the restore of the undamaged replica *)
+    [same]: the output equals the image the (checksum-valid) replica decodes to;
+    [cancelled]: the caller's context was cancelled before the call *)
 Definition restore_disc_ok (x : sx) : sx :=
-  sxB (obs_ok (asB (nthx 0 x)) (asN (nthx 1 x)) (asB (nthx 2 x)) (asB (nthx 3 x))
+  sxB (obs_ok (asB (nthx 0 x)) (asB (nthx 7 x)) (asN (nthx 1 x)) (asB (nthx 2 x)) (asB (nthx 3 x))
               (asB (nthx 4 x)) (asB (nthx 5 x)) (asB (nthx 6 x))).
 
 (** The file-system operations of Restore in the order they occur in the SOURCE
@@ -169,3 +170,59 @@ Definition restore_ops_ok (x : sx) : sx :=
        | 0 => match f_out fsf with Some true => true | _ => false end
        | _ => match f_out fsf with None => negb (f_side fsf) | _ => false end
        end).
+
+(** ---- compaction pipe under faults ------------------------------------------ *)
+
+(** input  [[[min; max; size; open_fail; (schedule)] per source]; write outcome; existed_before; [cached?; cmin; cmax]]
+    output [class; an object with the destination name exists afterwards; [cached?; cmin; cmax]]
+    class 0 nil | 1 error | 2 ErrNoCompaction.  Source contents are [0..size-1]; the
+    model reads each source in one buffer of the largest size. *)
+Definition compact_run (x : sx) : sx :=
+  let raw := asL (nthx 0 x) in
+  let srcs := map (fun r => mkCS (asN (nthx 0 r)) (asN (nthx 1 r)) (asB (nthx 3 r))
+                                 (map dec_outcome (asL (nthx 4 r)))) raw in
+  let size_of (s : csrc) : nat :=
+    fold_right (fun r a => if N.eqb (asN (nthx 0 r)) (cs_min s) && N.eqb (asN (nthx 1 r)) (cs_max s)
+                           then asNat (nthx 2 r) else a) 0 raw in
+  let stored (s : csrc) : list nat := seq 0 (size_of s) in
+  let chunk := fold_right (fun r a => Nat.max (asNat (nthx 2 r)) a) 0 raw in
+  let mergex (bs : list (list nat)) := concat bs in
+  let mn := span_min srcs in
+  let mx := span_max srcs in
+  let c0 := nthx 3 x in
+  let st0 := mkCSt (if asB (nthx 2 x) then [mkCF mn mx (mergex (map stored srcs))] else [])
+                   (if asB (nthx 0 c0) then Some (asN (nthx 1 c0), asN (nthx 2 c0)) else None) in
+  let '(r, st1) := compact mergex (fun _ => true) (fun _ => []) stored chunk srcs
+                           (dec_coutcome (nthx 1 x)) st0 in
+  SL [sxN (match r with COk => 0 | CNoCompaction => 2 | _ => 1 end)%N;
+      sxB (existsb (fun f => N.eqb (cf_min f) mn && N.eqb (cf_max f) mx) (c_dst st1));
+      match c_cache st1 with
+      | Some (a, b) => SL [sxN 1; sxN a; sxN b]
+      | None => SL [sxN 0; sxN 0; sxN 0]
+      end].
+
+(** [compact_no_partial_publish] and "restorable throughout" as a decidable test
+    on what the harness observed around one real Compact call:
+    input [class; exists; intact; cache_is_name; cache_changed; fail_after; created; contiguous; restore_ok]
+      class      0 nil | 1 error | 2 ErrNoCompaction
+      exists     an object with the destination name exists after the call
+      intact     every object at the destination level passes ltx verification and equals the
+                 independent merge of the archived L0 files of its TXID range
+      cache_is_name   the max-LTX cache of the level names exactly that object
+      cache_changed   the cache differs from its value before the call
+      fail_after the injected write outcome was "took effect, then failed"
+      created    the object did not exist before the call and does afterwards
+      contiguous every level is gap-free
+      restore_ok Restore(latest) succeeded and equals the source image *)
+Definition compact_inv_ok (x : sx) : sx :=
+  let class := asN (nthx 0 x) in
+  let ex := asB (nthx 1 x) in
+  let intact := asB (nthx 2 x) in
+  let cache_is := asB (nthx 3 x) in
+  let cache_chg := asB (nthx 4 x) in
+  let fa := asB (nthx 5 x) in
+  let created := asB (nthx 6 x) in
+  sxB (intact && asB (nthx 7 x) && asB (nthx 8 x) &&
+       (if N.eqb class 0 then ex && cache_is
+        else if N.eqb class 2 then negb created   (* ErrNoCompaction: nothing written; the cache may learn the listing *)
+        else negb cache_chg && (negb created || fa))).
